@@ -96,6 +96,9 @@ def runSubLine (st : St) (r : Report) (sec : Nat) (l : Line) : St × Report := I
     -- cluster.reload did not return: it holds the cluster lock and waits for the watch goroutine, which needs the lock
     if st.dead then return (st, r.addCover "line-after-deadlock")
     return ({ st with dead := true }, r.violation sec l.idx s!"reload-deadlocks-while-a-watch-response-is-handled op=[{joinSp l.op}] (the view is never updated again)")
+  if (kv? obs "loadstuck").isSome then
+    -- every Get after the one that timed out ran on an expired context: load can never finish, the watch never comes back
+    return ({ st with dead := true }, r.violation sec l.idx s!"reload-never-installed-the-snapshot-although-a-Get-with-a-live-context-would-have-succeeded op=[{joinSp l.op}] values=[{kvStr obs "values" "?"}] (every retry of load ran on the expired context of the first attempt; the view stays at the old snapshot){st.tag}")
   let some logS := kv? obs "log" | return (st, r.mismatch sec l.idx "obs-without-log" (joinSp obs))
   let some log := (splitComma logS).mapM parseLogTok | return (st, r.mismatch sec l.idx "bad-log" logS)
   -- the registry events of this line
@@ -121,7 +124,7 @@ def runSubLine (st : St) (r : Report) (sec : Nat) (l : Line) : St × Report := I
       let adds := pre.filterMap fun | .add k v => some (k, v) | _ => none
       let rems := pre.filterMap fun | .del k => some k | _ => none
       pure (Ev.reload kvs adds rems :: gap)
-    | "reloadg" :: _ :: ts | "reload" :: ts | "reloadc" :: ts | "connreload" :: ts => do
+    | "reloadg" :: _ :: ts | "reloadt" :: _ :: ts | "reload" :: ts | "reloadc" :: ts | "connreload" :: ts => do
       let kvs ← parsePairs ts
       -- the orders Go ranged over its maps in are read off the listener log: adds, then removes
       let adds := log.filterMap fun | .add k v => some (k, v) | _ => none
@@ -161,6 +164,7 @@ def runSubLine (st : St) (r : Report) (sec : Nat) (l : Line) : St × Report := I
   if (l.op.head? == some "connreload") then r := r.addCover "reload-after-connection-state-change"
   if (l.op.head? == some "joinmid") then r := r.addCover "joinmid"
   if (l.op.head? == some "reloadg") then r := r.addCover "load-retries-after-a-failed-Get"
+  if (l.op.head? == some "reloadt") then r := r.addCover "load-retries-with-a-fresh-deadline-after-a-Get-that-timed-out"
   if (l.op.head? == some "reloadgap") then
     r := r.addCover "events-between-snapshot-and-new-watch"
     if (evs.drop 1).any (fun ev => match ev with | .del k => ((stepValues st.cl.values (evs.headD (.del 0))).get k).isSome | _ => true) then
